@@ -400,15 +400,17 @@ func TestC12(t *testing.T) {
 			}
 		}
 		sum := sha256.Sum256(b)
-		rec.Case(hx(sum[:8]), nontrivial, cl, func() any { return map[string]any{"bytes": hx(b[:min(len(b), 96)]), "len": len(b), "decoded": m != nil, "classes": cl} })
+		rec.Case(hx(sum[:8]), nontrivial, cl, func() any {
+			return map[string]any{"bytes": hx(b[:min(len(b), 96)]), "len": len(b), "decoded": m != nil, "classes": cl}
+		})
 	})
 }
 
 func FuzzDecodeMessage(f *testing.F) {
-	f.Add([]byte{0, 0, 0, 0, 0, 1, 0, 0, 0, 0, 0, 0, 1, 'a', 0xc0, 0x0c})                                   // label then pointer back to the label
-	f.Add([]byte{0, 0, 0, 0, 0, 1, 0, 0, 0, 0, 0, 0, 0xc0, 0x0c, 0, 1, 0, 1})                                // pointer to self
-	f.Add([]byte{0, 0, 0, 0, 0, 1, 0, 0, 0, 0, 0, 0, 0xc0, 0x0e, 0xc0, 0x0c, 0, 1, 0, 1})                    // two-pointer cycle
-	f.Add([]byte{0, 0, 0, 0, 0xff, 0xff, 0xff, 0xff, 0xff, 0xff, 0xff, 0xff})                                // counts without data
+	f.Add([]byte{0, 0, 0, 0, 0, 1, 0, 0, 0, 0, 0, 0, 1, 'a', 0xc0, 0x0c})                                                                       // label then pointer back to the label
+	f.Add([]byte{0, 0, 0, 0, 0, 1, 0, 0, 0, 0, 0, 0, 0xc0, 0x0c, 0, 1, 0, 1})                                                                   // pointer to self
+	f.Add([]byte{0, 0, 0, 0, 0, 1, 0, 0, 0, 0, 0, 0, 0xc0, 0x0e, 0xc0, 0x0c, 0, 1, 0, 1})                                                       // two-pointer cycle
+	f.Add([]byte{0, 0, 0, 0, 0xff, 0xff, 0xff, 0xff, 0xff, 0xff, 0xff, 0xff})                                                                   // counts without data
 	f.Add([]byte{0, 0, 0x81, 0x80, 0, 1, 0, 1, 0, 0, 0, 0, 1, 'a', 0, 0, 1, 0, 1, 0xc0, 0x0c, 0, 1, 0, 1, 0, 0, 0, 60, 0xff, 0xff, 1, 2, 3, 4}) // RDLENGTH beyond the end
 	m := &dns.Message{ID: 1, QR: 1, Question: []dns.Question{{Name: "example.com", Type: 65, Class: 1}},
 		Answer: []dns.RR{{Name: "example.com", Type: 65, Class: 1, TTL: 60, Data: dns.HTTPS{Priority: 1, ALPN: []string{"h2"}, ECH: []byte{1, 2, 3}, IPv4Hint: []net.IP{{1, 2, 3, 4}}}},
